@@ -196,6 +196,9 @@ C05_AckAllOrNothing(k) == (ln(k).ev = "Ack" /\ ln(k).res = "ok") =>
    LET c == ActChain(k)  t == TripleOf(k) IN (t \in badrel[t[2]]) = rot[c][t[2]]
 (* C06 *)
 C06_RegistryOnlyByProposal(k) == \A c \in Chains : rot'[c] # rot[c] => (ln(k).ev = "Rotate" /\ ActChain(k) = c)
+(* C02: the consensus states a client verifies proofs against are ones it accepted itself: a header the counterparty's *)
+(* validators never signed is refused - also for a height the client already holds - and nothing changes           *)
+C02_ForgedHeaderRejected(k) == (ln(k).ev = "UpdateClient" /\ ln(k).args.signer = "forger") => (ln(k).res # "ok" /\ Unchanged(k))
 C06_OnlyRelayers(k) == (ln(k).ev \in {"UpdateClient", "Recv"} /\ ln(k).res = "ok") => ln(k).registered
 C06_AckRelayerField(k) == (ln(k).ev = "Recv" /\ ln(k).res = "ok") => ln(k).wrote.relayer_ok
 C06_RejectNoChange(k) == (ln(k).ev \in {"UpdateClient", "Recv"} /\ ln(k).res # "ok") => Unchanged(k)
@@ -242,6 +245,7 @@ Judge(k) ==
      /\ Report(k, "C02.AuthRecv", C02_AuthRecv(k))
      /\ Report(k, "C02.AuthAck", C02_AuthAck(k))
      /\ Report(k, "C02.RejectNoChange", C02_RejectNoChange(k))
+     /\ Report(k, "C02.ForgedHeaderRejected", C02_ForgedHeaderRejected(k))
      /\ Report(k, "C03.ErrorAckLeavesNothing", C03_ErrorAckLeavesNothing(k))
      /\ Report(k, "C04.SendStep", C04_SendStep(k))
      /\ Report(k, "C04.SendTwoStep", C04_SendTwoStep(k))
@@ -276,6 +280,7 @@ C_Step(k) ==
           /\ UpdateEff(c, a.counter, a.height, a.signer)
           /\ ln(k).res = Res(UpdateOK(c, a.counter, a.height, a.signer))
     [] ln(k).ev = "Retoggle" -> RetoggleEff(c, a.counter) /\ ln(k).res = "ok"
+    [] ln(k).ev = "NewClient" -> NewClientEff(c, a.counter, a.name)
     [] ln(k).ev = "Rotate" -> RotateEff(c, a.counter) /\ ln(k).res = "ok"
     [] ln(k).ev = "Recv" ->
           /\ RecvEff(c, Base(k), a.alt, a.ph, (IF a.proof = "ok" THEN "ok" ELSE "bad"), a.signer)
